@@ -30,7 +30,8 @@ PROPERTY = "C10"
 RULE = ("text stream: every truncation of hand-written documents and of tests/fixtures (sampled for the two large ones), "
         "multi-line texts with LF/CR/CRLF and non-ASCII, malformed texts; request stream: generated schema + generated "
         "document (valid, or invalidated in one of 8 ways) + operation name + variable payload (ok/missing/null/wrong) + "
-        "resolver world (value/null/ResolverError with/without extensions per response path); non-trivial = distinct "
+        "resolver world (value/null/ResolverError with/without extensions per response path; fresh, subclass, SHARED instance or bogus-path errors); "
+        "execution-time argument coercion failures under lists of 2-4 items on all 4 configurations; non-trivial = distinct "
         "(text, operation name, variables, world) whose response has errors, or whose data has depth >= 2")
 ASSUMPTIONS = [
     "resolvers return values their field type can serialise, or raise the library's ResolverError; any other exception "
@@ -39,6 +40,7 @@ ASSUMPTIONS = [
     "lines of the submitted text are delimited by the spec's LineTerminator (LF | CR | CRLF)",
 ]
 TRUSTED = [
+    "error objects are values in the Lean model: sharing/mutation of one exception object between registrations (X6, cached coercion failures) is exercised by the oracle (null sites computed without looking at the errors) and the correspondence, not proved",
     "highlight_location (the text after the message of a syntax error) is opaque in the model: only its totality for positions <= len is exercised",
     "stage outcomes (error positions, paths, extensions, data) are observed through the real stage functions; scalar serialisers are exercised, not modelled",
 ]
@@ -325,13 +327,14 @@ def ty_json(t):
     return {"k": "named", "n": t.name}
 
 
-def outcome_tree(world, schema, data):
+def outcome_tree(world, schema, data, coercion_nodes=None):
     """
     typed outcome tree of the root selection, from the calls recorded by the world (blocking order).
     Fields the world does not resolve (`__typename` and the other introspection fields) are taken
     from `data` (the wire-encoded real result) as opaque leaves at their place in key order.
     """
     from py_gql.schema import ListType, NonNullType, ObjectType, InterfaceType, UnionType
+    coercion_nodes = coercion_nodes or {}
     by_path = {path: (path, ftype, nodes, o) for path, ftype, nodes, o in world.calls}
     order = {}
     for path, ftype, nodes, o in world.calls:
@@ -343,8 +346,12 @@ def outcome_tree(world, schema, data):
         for k in keys:
             c = by_path.get(parent + (k,))
             if c is None:
-                out.append({"key": k, "ty": {"k": "named", "n": "<introspection>"}, "nodes": [],
-                            "o": {"k": "leaf", "v": dv[k]} if dv[k] is not None else {"k": "null"}})
+                if dv[k] is None:
+                    # never resolved and null: argument coercion failed (`fail`), same path as a raised resolver
+                    out.append({"key": k, "ty": {"k": "named", "n": "<unresolved>"}, "nodes": coercion_nodes.get(parent + (k,), []),
+                                "o": {"k": "raised", "msg": "<coercion>", "ext": None}})
+                else:
+                    out.append({"key": k, "ty": {"k": "named", "n": "<introspection>"}, "nodes": [], "o": {"k": "leaf", "v": dv[k]}})
                 continue
             path, ftype, nodes, o = c
             sub = dv.get(k) if isinstance(dv, dict) else None
@@ -371,13 +378,29 @@ def outcome_tree(world, schema, data):
     return fields((), data)
 
 
-def expected_sites(world, data, coercion_paths):
-    """the statement's right-hand side, independent of the model: raised sites + nulls at non-null positions"""
+def expected_sites(world, data):
+    """
+    The statement's right-hand side, computed WITHOUT looking at the errors: fields whose resolver raised,
+    nulls at non-null positions, and fields that are null in `data` although the world never resolved them
+    (their argument coercion failed at execution time: `resolve_field` -> `fail`). Introspection fields
+    (`__typename`) are never resolved by the world either, but are never null.
+    -> (sites, unresolved_null_sites)
+    """
     from py_gql.schema import ListType, NonNullType
     raised = [tuple(p) for p, _t, _n, o in world.calls if o[0] == "raised"]
     ftypes = {tuple(p): t for p, t, _n, o in world.calls}
-    sites = list(raised) + [tuple(p) for p in coercion_paths]
+    sites = list(raised)
+    unresolved = []
     skip = set(sites)
+
+    def walk_obj(v, path):
+        for k, x in v.items():
+            ft = ftypes.get(path + (k,))
+            if ft is not None:
+                walk(ft, x, path + (k,))
+            elif x is None:
+                sites.append(path + (k,))
+                unresolved.append(path + (k,))
 
     def walk(t, v, path):
         if isinstance(t, NonNullType):
@@ -390,16 +413,10 @@ def expected_sites(world, data, coercion_paths):
             for i, x in enumerate(v):
                 walk(t.type, x, path + (i,))
         elif isinstance(v, dict) and not getattr(t, "_serialize", None):
-            for k, x in v.items():
-                ft = ftypes.get(path + (k,))
-                if ft is not None:
-                    walk(ft, x, path + (k,))
+            walk_obj(v, path)
     if isinstance(data, dict):
-        for k, x in data.items():
-            ft = ftypes.get((k,))
-            if ft is not None:
-                walk(ft, x, (k,))
-    return sites
+        walk_obj(data, ())
+    return sites, unresolved
 
 
 # ---------------------------------------------------------------------------
@@ -488,15 +505,22 @@ def check_case(ctx, case, pending):
         fail("no-errors-after-%s-failure" % failed, "stage failed but the response has no errors", {"response": O.enc(resp)})
     # --- null <-> error bijection -----------------------------------------------------------------
     if failed is None and world is not None and has_data:
-        from py_gql.exc import CoercionError
-        coercion_paths = [e.path for e in res.errors if isinstance(e, CoercionError) and e.path]
-        want = sorted(expected_sites(world, resp["data"], coercion_paths), key=repr)
+        sites, unresolved = expected_sites(world, resp["data"])
+        if unresolved:
+            ctx.stat("requests-with-argument-coercion-failures")
+            ctx.stat("argument-coercion-failure-sites", len(unresolved))
+            if any(isinstance(x, int) for p in unresolved for x in p):
+                ctx.stat("argument-coercion-failures-under-lists")
+        want = sorted(sites, key=repr)
         got = sorted((tuple(e.get("path") or ()) for e in resp.get("errors", [])), key=repr)
         if want != got:
             missing = [p for p in want if p not in got]
             extra = [p for p in got if p not in want]
             dup = [p for p in set(got) if got.count(p) > 1]
             kind = "missing-error" if missing else ("duplicate-error" if dup and not extra else "unmatched-error")
+            shared = {tuple(p) for p, _t, _n, o in world.calls if o[0] == "raised" and o[3] == 2}
+            if missing and all(p in shared for p in missing):
+                kind += ":shared-error-instance"     # the resolver re-raised ONE ResolverError object
             fail("null-error-bijection:" + kind, "nulls at non-null positions / raised resolvers and errors are not in bijection",
                  {"expected_paths": [list(p) for p in want], "error_paths": [list(p) for p in got]})
         # resolver-supplied message and extensions are passed through at the raising field's path
@@ -551,13 +575,20 @@ def check_case(ctx, case, pending):
         pending.append(({"op": "process", "stages": stages, "real": real}, on_answer))
         if failed is None and world is not None and cfg == "blocking":
             world_s.calls = calls_blocking
-            tree = outcome_tree(world_s, sync_schema, stages["exec"]["data"])
+            # positions of the field node of the execution-time CoercionErrors (only to place the model's locations)
+            cnodes = {}
+            for e in res.errors:
+                if type(e).__name__ in ("CoercionError", "MultiCoercionError") and e.path:
+                    cnodes.setdefault(tuple(e.path), [n.loc[0] for n in e.nodes if n.loc][:1])
+            tree = outcome_tree(world_s, sync_schema, stages["exec"]["data"], cnodes)
             raised_paths = {tuple(p) for p, _t, _n, o in calls_blocking if o[0] == "raised"}
             real_errs = []
             for e in res.errors:
                 a = abs_err(e)
                 if tuple(a.get("path") or ()) not in raised_paths:
                     a["msg"] = "<nonnull>"
+                if a["cls"] == "located":      # CoercionError through `fail`: same dictionary as a ResolverError without extensions
+                    a["cls"], a["ext"] = "resolver", None
                 real_errs.append(a)
             real_exec = {"data": O.enc(res.data), "errors": real_errs}
 
@@ -568,9 +599,15 @@ def check_case(ctx, case, pending):
                 if ans.get("exec") != real_exec:
                     ctx.fail("corr:executor-error-capture", "model of resolve_field/complete_value/_handle_non_nullable_value differs from the real executor",
                              dict(detail, model=ans, real=real_exec, tree=tree), kind="correspondence")
+                if ans.get("tree_ok") is False:
+                    ctx.fail("corr:tree-not-admissible", "hypothesis treeOkFields of executed_response_wellformed does not hold on a recorded tree",
+                             dict(detail, tree=tree), kind="correspondence")
+                if ans.get("keys_distinct") is False:
+                    ctx.fail("corr:response-keys-not-distinct", "hypothesis RootKeysDistinct of exactly_one_error_per_site does not hold on a recorded tree",
+                             dict(detail, tree=tree), kind="correspondence")
                 if ans.get("bijection") is False:
                     ctx.fail("corr:model-bijection", "the model's own errors are not in bijection with its null sites", dict(detail, model=ans), kind="correspondence")
-            pending.append(({"op": "exec", "fields": tree}, on_exec))
+            pending.append(({"op": "exec", "fields": tree, "len": len(text)}, on_exec))
     return sigs
 
 
@@ -596,8 +633,8 @@ def flush(ctx, pending):
 # streams
 
 BASE_SDL = """
-type Query { a(x: Int, s: String): Int, b: String!, f: Float, l: [Int!]!, o: Obj, os: [Obj!], u: Un }
-type Obj { id: ID!, n: Obj, v: Float! }
+type Query { a(x: Int, s: String): Int, b: String!, f: Float, l: [Int!]!, o: Obj, os: [Obj!], u: Un, oss: [[Obj]] }
+type Obj { id: ID!, n: Obj, v: Float!, w(x: Int! = 7): Int, p(among: [Int!]): Int!, q(i: In): Int, ns: [Obj!]! }
 type Other { z: Int }
 union Un = Obj | Other
 type Mutation { m(i: In): Int }
@@ -766,11 +803,35 @@ def _run(ctx, rng, pending):
             for cfg in (CONFIGS if k % 3 == 0 else ["blocking"]):
                 w = {"seed": k, "p_raise": [0.0, 0.2, 0.5][k % 3], "p_null": 0.2, "p_null_nn": [0.1, 0.4][k % 2]}
                 check_case(ctx, make_case("hand", BASE_SDL, base, cfg, text, opn, vs, w), pending)
+    # execution-time ARGUMENT coercion failures (valid document, valid variable payload) on fields selected
+    # under lists of 2-4 items, nested lists, several such fields, all four configurations
+    argco = [
+        ("query($o: Int = 1) { os { w(x: $o) } }", {"o": None}),
+        ("query($o: Int = 1) { os { id w(x: $o) w2: w(x: $o) v } }", {"o": None}),
+        ("query($n: Int) { os { p(among: [1, $n]) } }", {}),
+        ("query($n: Int) { os { p(among: [1, $n]) id } }", {"n": None}),
+        ("query($n: Int = 2) { os { p(among: [1, $n]) ns { p(among: [$n]) w } } }", {"n": None}),
+        ("query($k: Int = 1) { oss { q(i: {k: $k}) a: w(x: $k) id } }", {"k": None}),
+        ("query($k: Int = 1) { oss { ns { q(i: {k: $k}) } } os { q(i: {k: $k, t: [\"x\"]}) } }", {"k": None}),
+        ("query($o: Int = 1, $n: Int) { o { w(x: $o) } os { n { w(x: $o) p(among: [$n]) } } }", {"o": None}),
+        ("query($o: Int = 1) { os { ...F } oss { ...F } } fragment F on Obj { w(x: $o) n { w(x: $o) } }", {"o": None}),
+        ("query($o: Int = 1) { os { w(x: $o) } }", {"o": 3}),
+        ("mutation($i: Int = 1) { m(i: {k: $i}) }", {"i": None}),
+    ]
+    for k in range(ctx.n(4, 16)):
+        for text, vs in argco:
+            w = {"seed": 100 + k, "p_raise": [0.0, 0.15][k % 2], "p_null": 0.0 if k < 2 else 0.1, "p_null_nn": [0.0, 0.0, 0.2][k % 3],
+                 "min_items": 2}
+            for cfg in (CONFIGS if k < 2 else ["blocking", CONFIGS[1 + k % 3]]):
+                check_case(ctx, make_case("argcoerce", BASE_SDL, base, cfg, text, None, vs, w), pending)
+    flush(ctx, pending)
     # non-finite floats (X2)
     for k in range(ctx.n(6, 30)):
         w = {"seed": k, "p_raise": 0.0, "p_null": 0.0, "p_null_nn": 0.0, "nonfinite": True}
-        # only the synchronous configurations: with futures the (documented) RuntimeError of the fixed tree is
-        # swallowed inside a done-callback and the outer future never completes (C08's business)
+        # only the synchronous configurations. With ThreadPoolRuntime the (documented) RuntimeError still reaches the
+        # caller promptly; when two sibling futures fail, gather_futures' on_finish calls outer.set_exception a second
+        # time and concurrent.futures logs "exception calling callback ... InvalidStateError" on stderr. No hang
+        # (verified); the restriction only keeps that noise out of the run.
         for cfg in (["blocking", "default"] if k < 2 else ["blocking"]):
             check_case(ctx, make_case("nonfinite", BASE_SDL, base, cfg, "{ f o { v } os { v } }", None, None, w), pending)
     flush(ctx, pending)
